@@ -36,7 +36,7 @@ PROP = dict(
          "validations; arrays of 11 item kinds x 6 collection formats x locations x flags; item validations; files; the parameter's key also sent in "
          "the opposite location (query string next to an urlencoded / multipart form body and vice versa: valid, invalid, empty, repeated; own field "
          "present / absent / empty / invalid; scalars, multi and csv arrays), which must not influence the binding; "
-         "defaults of every magnitude (zero-valued 0 / 0.0 / false / \"\" / [], >= 10^6, < 10^-4, negative, 2^53) for scalars and array items x required x "
+         "operations that also declare an optional body parameter (requests without body); defaults of every magnitude (zero-valued 0 / 0.0 / false / \"\" / [], >= 10^6, < 10^-4, negative, 2^53) for scalars and array items x required x "
          "allowEmpty; "
          "concurrent mode: batches of 8 / 64 requests served simultaneously from as many goroutines against one handler (operations with "
          "eight parameters, all locations) at GOMAXPROCS 1 / 4 / 16, every request with texts of its own, per-request events validated unchanged. Seeded part: random "
